@@ -207,6 +207,8 @@ class C18(FsProp):
                     for tex in (False, True):
                         out.append({"cmd": "rename", "target_exists": tex, "cwd_mode": "metadir", "decoy_in_cwd": False,
                                     "payload_beside": True, "version": v, "P": B, "tree": t, "clauses": ["C18.rename"]})
+        for c in [c for c in out if c["cmd"] == "rename" and not c.get("decoy_in_cwd")]:
+            out.append(dict(c, case_twin=True))
         for k, c in enumerate(out):
             if c["cmd"] != "rename":
                 c["cwd_mode"] = "elsewhere" if k % 3 == 0 else "metadir"
@@ -238,7 +240,7 @@ class C18(FsProp):
     def nontrivial(self, case):
         return (case["cmd"], case.get("spelling"), case["version"], case["tree"]["name"], str(case.get("damage")),
                 case.get("outform"), case.get("preexisting"), case.get("target_exists"), str(case.get("pre")),
-                case.get("mver"), case.get("path_mode"), case.get("cwd_mode"), case.get("decoy_in_cwd"), case.get("clutter"))
+                case.get("mver"), case.get("path_mode"), case.get("cwd_mode"), case.get("decoy_in_cwd"), case.get("clutter"), case.get("case_twin"))
 
     def signature(self, case, rec, clause):
         return "%s/%s" % (clause, case["cmd"] if case else "?")
